@@ -384,8 +384,10 @@ func sortHostsReverseHostPort(hosts []string) []string {
 	// specific than any pattern, whatever the byte order of the reversed strings
 	// says (a '?' or '{' sorts above letters, and the reversed exact host is a
 	// prefix of a reversed pattern like "*foo.com")
+	// (the empty key of the host-less routes is not a host and stays where it is)
+	exact := func(h string) bool { return h != "" && !strings.ContainsAny(h, "*?[{\\") }
 	sort.SliceStable(hosts, func(i, j int) bool {
-		return !strings.ContainsAny(hosts[i], "*?[{\\") && strings.ContainsAny(hosts[j], "*?[{\\")
+		return exact(hosts[i]) && !exact(hosts[j])
 	})
 	return hosts
 }
